@@ -64,6 +64,29 @@ pub struct WithNonSerialized {
     pub also_kept: u16,
 }
 
+/// C39 R39k: the reader's version of an evolved type. A writer of the previous version does not send `added`.
+#[derive(DdsType, Debug, Clone, PartialEq)]
+#[dust_dds(extensibility = "appendable")]
+pub struct EvolvedAppendableReader {
+    pub a: u32,
+    pub added: u32,
+}
+
+/// C39 R39k: same for a mutable type with named members
+#[derive(DdsType, Debug, Clone, PartialEq)]
+#[dust_dds(extensibility = "mutable")]
+pub struct EvolvedMutableReader {
+    #[dust_dds(id = 1)]
+    pub a: u32,
+    #[dust_dds(id = 2)]
+    pub added: u32,
+}
+
+/// C39 R39k: same for a mutable tuple struct
+#[derive(DdsType, Debug, Clone, PartialEq)]
+#[dust_dds(extensibility = "mutable")]
+pub struct EvolvedMutableTupleReader(#[dust_dds(id = 1)] pub u32, #[dust_dds(id = 2)] pub u32);
+
 #[derive(DdsType, Debug, Clone, PartialEq)]
 #[dust_dds(extensibility = "mutable")]
 pub struct HashedIds {
